@@ -28,6 +28,7 @@ def run(chk):
     chk.rule('C13-R1', 'no dependence path from the values or lengths of pos, w, pos2, w2 to N_mode / N_mode_poles / k_* / mu_* / table shape', 8)
     chk.rule('C13-R3', 'the particle arrays are not modified in place on the calc_power path, except by the idempotent periodic wrap (needed for cross == auto with the same array, and for repeated calls)', 4)
     chk.rule('C13-R2', 'kernels on the calc_power path: every store under prange is iteration-, thread- or cursor-private', 8)
+    chk.rule('C13-R4', 'the in-place normalisation passes (normalize_field, _normalize) update every cell of the mesh', 2)
     chk.assume('termination-insensitive: a raise/assert that depends on the particles is not counted as a dependence of the outputs')
     chk.assume('library calls (rfftn, numpy) are modelled as: result values and shape depend on the values and shapes of all arguments')
     chk.assume('permutation / translation / cross=auto invariance are not decided (numerical identities of the pipeline)')
@@ -105,3 +106,26 @@ def run(chk):
         chk.check(not shared, 'C13-R2', rel, q, f'{len(loops)} prange loop(s), {len(stores)} store(s)', f'{sorted({s_.cls for s_ in stores})}',
                   '; '.join(f'{unparse(s_.node)} at line {s_.node.lineno} is shared' for s_ in shared[:3]) + ': the result would depend on the thread schedule',
                   node=shared[0].node if shared else fnq)
+    # ---- R4: the element-wise normalisation passes visit every cell (a cell left un-normalised sits at a fixed mesh
+    # position: translation invariance and thread-count independence are lost)
+    for q in ('normalize_field', '_normalize'):
+        fnq = src.func(PS, q)
+        loops = own.prange_loops(fnq)
+        if not loops:
+            whole = [n for n in walk_no_nested(fnq) if isinstance(n, (ast.AugAssign, ast.Assign)) and 'field' in unparse(n)]
+            chk.check(bool(whole), 'C13-R4', PS, q, 'whole-array normalisation (no explicit loop)', '', 'no normalisation statement found', node=fnq)
+            continue
+        for lp in loops:
+            if any(s_.cls == 'shared' for s_ in own.classify_loop(fnq, lp)):
+                continue          # already refuted by R2: coverage of a racy loop is not a meaningful question
+            verdict, detail, X = own.flat_coverage(fnq, lp)
+            flat = None
+            if X is not None:
+                d = [n for n in walk_no_nested(fnq) if isinstance(n, ast.Assign) and unparse(n.targets[0]) == X]
+                flat = unparse(d[0].value) if len(d) == 1 else None
+            if verdict == 'PROVEN' and flat not in ('field.reshape(-1)', 'field.ravel()'):
+                verdict, detail = 'REFUTED', f'{X} = {flat}: the loop covers {X}, which is not the flattened field'
+            if verdict == 'UNKNOWN':
+                chk.unknown('C13-R4', PS, q, f'loop at line {lp.lineno} covers the flattened field', detail, node=lp)
+            else:
+                chk.check(verdict == 'PROVEN', 'C13-R4', PS, q, f'loop over {X} covers the flattened field', detail, detail, node=lp)
